@@ -94,18 +94,25 @@ class Runtime:
         raise AssertionError(f"unknown behaviour {k}")
 
     def call(self, key: str, bound: Dict[str, Any], ctx: Any) -> Any:
-        entry = self._record(key, bound, ctx)
-        return self._behave(key, entry)
-
-    async def acall(self, key: str, bound: Dict[str, Any], ctx: Any) -> Any:
-        self.events.append(('start', key, bound.get('tag')))
+        tag = bound.get('tag')
+        self.events.append(['start', key, tag])
         entry = self._record(key, bound, ctx)
         try:
-            for i in range(self.suspend.get(key, 0)):
-                await self.point(f"{key}#{i}")
             return self._behave(key, entry)
         finally:
-            self.events.append(('end', key, bound.get('tag')))
+            self.events.append(['end', key, tag])
+
+    async def acall(self, key: str, bound: Dict[str, Any], ctx: Any) -> Any:
+        tag = bound.get('tag')
+        self.events.append(['start', key, tag])
+        entry = self._record(key, bound, ctx)
+        try:
+            n = self.suspend.get(f"tag:{tag}", self.suspend.get(key, 0)) if not isinstance(tag, (list, dict)) else 0
+            for i in range(n):
+                await self.point(f"{key}[{tag}]#{i}")
+            return self._behave(key, entry)
+        finally:
+            self.events.append(['end', key, tag])
 
 
 RT = Runtime()
